@@ -23,10 +23,15 @@ func (e *CombineExpr) Evaluate(engine *Engine, input interface{}, args []*Statem
 	}
 
 	slice := reflect.MakeSlice(reflect.TypeOf(firstArg), 0, 0)
-	for _, arg := range args {
-		argValue, err := arg.Evaluate(engine, input)
-		if err != nil {
-			return nil, err
+	for i, arg := range args {
+		// The first argument has already been evaluated above. Evaluating it
+		// again doubles the work for every level of nested Combine calls.
+		argValue := firstArg
+		if i > 0 {
+			argValue, err = arg.Evaluate(engine, input)
+			if err != nil {
+				return nil, err
+			}
 		}
 
 		slice = reflect.AppendSlice(slice, reflect.ValueOf(argValue))
